@@ -225,11 +225,16 @@ theorem C07_attrs_last_remove (items : List Attribute) (pre post : List AttrOp) 
   rw [this]
   exact attrApply_remove_lookup _ n k hk
 
-/-- `get_attribute` is the lookup of the lower-cased name. -/
-theorem C07_getAttribute_lookup (items : List Attribute) (n k : Bytes)
-    (hk : attrNameFromString (asciiLowerBytes n) = some k) :
-    attrsGetAttribute items n = (lookup k items).map (·.value) := by
-  simp [attrsGetAttribute, hk, lookup]
+/-- `get_attribute` is the lookup of the lower-cased name — for every name (`Attribute::lookup_name`: no
+validation; before the repair of F8 this needed `attrNameFromString (asciiLowerBytes n) = some k`). -/
+theorem C07_getAttribute_lookup (items : List Attribute) (n : Bytes) :
+    attrsGetAttribute items n = (lookup (asciiLowerBytes n) items).map (·.value) := rfl
+
+/-- **`remove_attribute` removes every attribute with that name, whatever the name** (`<a =b>`,
+`remove_attribute("=b")` included). -/
+theorem C07_attrs_remove_any (items : List Attribute) (n : Bytes) :
+    lookup (asciiLowerBytes n) (attrApply items (.remove n)) = none :=
+  attrApply_remove_lookup items n _ rfl
 
 /-- Own bytes of a start tag: untouched by name/attribute calls ⇒ the source bytes … -/
 theorem C07_startTag_own_untouched (t : StartTag) (hm : t.modified = false) (ops : List StartTagOp)
